@@ -337,6 +337,25 @@ static int use( int ( a ) , int b ) { return after3( ( a ) , b ) ; }
 """ + EXTRA_HOSTS['CPP']
 
 
+EMBEDDED_COMMENTS = b"""
+int cm(int *p, int a, int b)
+{
+   int x = /* out */ *p;
+   int y = a /* c */ * b;
+   int z = a /* d */ / b;
+   int w = a /* e */ + b /* f */ - 1;
+   int *q = /* addr */ &a;
+   cm(/* first */ p, /* second */ a /* third */, b);
+   x = /* cast */ (int) y /* s */ ;
+   x = -/* neg */ y + ~/* inv */ z;
+   w = a /* lt */ < b /* and */ && z /* ne */ != 0;
+   return /* r */ x /* t */ ;
+}
+"""
+EXTRA_HOSTS['C'] = EXTRA_HOSTS['C'] + EMBEDDED_COMMENTS
+EXTRA_HOSTS['CPP'] = EXTRA_HOSTS['CPP'] + EMBEDDED_COMMENTS
+
+
 def _case(t):
     cid, spec, lang, assign = t
     x = load_input(spec)
